@@ -179,3 +179,29 @@ def chunk_parent(w, L, seq=None, name="chr1", strand=Strand.PLUS):
         sequence=Sequence(seq, Alphabet.NT_STRICT, id=chunk_id, type=SequenceType.SEQUENCE_CHUNK,
                           parent=Parent(location=SingleInterval(w, w + L, strand,
                                                                 parent=Parent(id=name, sequence_type=SequenceType.CHROMOSOME)))))
+
+
+def DEQ(a, b):
+    """deep equality of plain containers whose leaves may be symbolic ints (non-forking: one conjunction)"""
+    conds = []
+
+    def rec(x, y):
+        if isinstance(x, dict) and isinstance(y, dict):
+            if set(x) != set(y):
+                conds.append(False)
+                return
+            for k in x:
+                rec(x[k], y[k])
+        elif isinstance(x, (list, tuple)) and isinstance(y, (list, tuple)):
+            if len(x) != len(y):
+                conds.append(False)
+                return
+            for u, v in zip(x, y):
+                rec(u, v)
+        elif isinstance(x, (set, frozenset)) and isinstance(y, (set, frozenset)):
+            conds.append(x == y)
+        else:
+            conds.append(x == y)
+
+    rec(a, b)
+    return AND(*conds) if conds else True
